@@ -154,9 +154,12 @@ def compare_registry(gw, st, what="registry"):
                                     ("description", ch.description, mc.desc)):
                 if got != want:
                     raise Violation("%s:child.%s" % (what, name), "node %r child %r: %s is %r, expected %r" % (k, ck, name, got, want))
-            if len(ch.values) != len(mc.values):
-                raise Violation("%s:value-count" % what, "node %r child %r has %d values, expected %d" % (k, ck, len(ch.values), len(mc.values)))
-            for tk, pv in mc.values:
+            want_values = mc.values
+            if mc.values_alt is not None and len(ch.values) == len(mc.values_alt) and len(ch.values) != len(mc.values):
+                want_values = mc.values_alt
+            if len(ch.values) != len(want_values):
+                raise Violation("%s:value-count" % what, "node %r child %r has %d values, expected %d" % (k, ck, len(ch.values), len(want_values)))
+            for tk, pv in want_values:
                 got = ch.values.get(tk)
                 if got != pv:
                     raise Violation("%s:value" % what, "node %r child %r type %r: value %r, expected %r" % (k, ck, tk, got, pv))
